@@ -73,16 +73,16 @@ def run_case(desc, ctx):
         # VCFs is written with -o over an existing, longer file
         tv = [1, 2, 3, 4, 5, 7][(desc['seed'] // 5) % 6]
         ta = [1, 1, 2, 3][(desc['seed'] // 30) % 4]
-        a = ctx.sh(b, 'map', ctx.path('ref.fa'), ctx.path('o.skf'), *flags, '--threads', ta)
+        a = ctx.sh(b, 'map', ctx.path('ref.fa'), *c04.map_inputs(desc, ctx, st), *flags, '--threads', ta)
         if desc['seed'] % 4 == 1:
             vout = G.stale_file(ctx, 'stale.vcf')
-            v = ctx.sh(b, 'map', '-f', 'vcf', ctx.path('ref.fa'), ctx.path('o.skf'), *flags, '--threads', tv, '-o', vout)
+            v = ctx.sh(b, 'map', '-f', 'vcf', ctx.path('ref.fa'), *c04.map_inputs(desc, ctx, st), *flags, '--threads', tv, '-o', vout)
             if v.returncode == 0:
                 v = type('R', (), {'returncode': 0, 'stdout': open(vout).read(), 'stderr': v.stderr})()
             if variant == 'rel':
                 res.count('vcf_written_over_existing_longer_file')
         else:
-            v = ctx.sh(b, 'map', '-f', 'vcf', ctx.path('ref.fa'), ctx.path('o.skf'), *flags, '--threads', tv)
+            v = ctx.sh(b, 'map', '-f', 'vcf', ctx.path('ref.fa'), *c04.map_inputs(desc, ctx, st), *flags, '--threads', tv)
         if variant == 'rel':
             res.see('vcf_threads', tv)
             if tv > 1 and sum(len(c) for c in ref) % tv:
